@@ -139,3 +139,44 @@ def per_segment_disambiguation(qual: str, attr: str):
             return ok, ast.unparse(e) + " -> " + shown, fi
     e = nreturn(m, fi)
     return b is not None, (ast.unparse(e)[:160] if e is not None else "<not a single expression>"), fi
+
+
+def fields_mapping_facts():
+    """Facts about Method._fields_mapping read off its normal form (so a generator helper + OrderedDict(genexp), nested loops with
+    `answer[key] = field`, += or conditional expressions all look the same):
+      key_rule   the key of each entry is `<path>.strip()` plus '_' exactly when the RESOLVED leaf field's proto name is reserved
+      key_pos    that expression is used as the entry's key, paired with the resolved field itself
+      order      entries are produced by iterating `signatures`, then `<sig>.split(',')`, in that nesting, with no re-ordering call
+    """
+    from ..pymodel import nfunc, find_match_ast, FuncInfo
+    from ..pynorm import norm_expr, canon_globals
+    m = _pm()
+    fi = m.func("gapic.schema.wrappers.Method._fields_mapping")
+    nf = nfunc(m, fi, keep={"RESERVED_NAMES", "get_field", "OrderedDict"})
+    pat = canon_globals(m, norm_expr(ast.parse(
+        "f'{_ANYK_}_' if self.input.get_field(*_ANYK_.split('.')).field_pb.name in utils.RESERVED_NAMES else _ANYK_", mode="eval").body))
+    node, b = find_match_ast(pat, nf)
+    facts = {"fi": fi, "key_rule": False, "key_pos": False, "order": False, "shown": ""}
+    if node is None:
+        return facts
+    K = b["_ANYK_"]
+    facts["key_rule"] = K.endswith(".strip()")
+    facts["shown"] = ast.unparse(node)[:160]
+    field_src = f"self.input.get_field(*{K}.split('.'))"
+    for n in ast.walk(nf):
+        if isinstance(n, ast.Yield) and isinstance(n.value, ast.Tuple) and len(n.value.elts) == 2 and n.value.elts[0] is node \
+                and ast.unparse(n.value.elts[1]) == field_src:
+            facts["key_pos"] = True
+        if isinstance(n, ast.Assign) and len(n.targets) == 1 and isinstance(n.targets[0], ast.Subscript) and n.targets[0].slice is node \
+                and ast.unparse(n.value) == field_src:
+            facts["key_pos"] = True
+    iters = []
+    for n in ast.walk(nf):
+        if isinstance(n, ast.For):
+            iters.append(ast.unparse(n.iter))
+        elif isinstance(n, ast.comprehension):
+            iters.append(ast.unparse(n.iter))
+    V = K[: -len(".strip()")] if facts["key_rule"] else None
+    reorder = [c for c in ast.walk(nf) if isinstance(c, ast.Call) and ast.unparse(c.func).split(".")[-1] in ("sorted", "set", "frozenset", "reversed", "sort", "reverse")]
+    facts["order"] = "signatures" in iters and any(it.endswith(".split(',')") for it in iters) and not reorder
+    return facts
